@@ -1,10 +1,11 @@
 (* Extraction of the C13 models.  Directives used: ExtrOcamlBasic (bool, option, unit, list, prod
    -> OCaml natives) and nothing else; N, Z, positive, nat stay the extracted inductive types. *)
 From Coq Require Import Extraction ExtrOcamlBasic.
-From NV Require Import Codec.Escape Codec.Ident Codec.Num Codec.YamlScalar Gen.Keywords.
+From NV Require Import Codec.Escape Codec.Ident Codec.Num Codec.YamlScalar Codec.Loaders Gen.Keywords.
 Extraction "c13_model.ml"
   escape print_string next_tok lex_string
   quoting_regex_match print_key lex_key key_of tables_ok
   serialize_int int_token dec_of_Z parse_i64 json_serde_int toml_int
   resolve resolve_plain from_sci nonstring_spelling float_overflow_spelling
+  loader_run serde_run
   printer_keywords lexer_reserved grammar_accepted.
